@@ -59,6 +59,10 @@ CLAIMED = {
    text="Proof (Lean 4): C05_old_new_or_invalid — for a kill before any step of the install phase the object is the old state, the new state, or a state satisfying one of the conditions rocfl's validator reports; C05_old_new_not_flagged; C05_version_dir_moves_once (the new version directory is entirely in staging or entirely in the object). Tied to the code by SIGKILL injection before every mutating system call of real commits: previously committed version directories byte-identical, every content file of the new version in full in staging or in the object, and `rocfl validate` exits 2 whenever the state is neither old nor new.",
    note="Trusted: Lean kernel + 3 standard axioms; process-kill model (calls already made are durable and ordered; no fsync modelling); flaggedInvalid is tied to the real validator by the enumeration.",
    technique="Lean 4 exhaustive proof over the commit step table + strace kill-point enumeration on the real binary", design="§5-C05"),
+ "C06": dict(
+   text="Proof (Lean 4), partial: the validator is modelled as a decision table (Validator.expectedCodes: corruption kind x fixity -> codes of the checks of validate/mod.rs that answer to it). C06_every_kind_has_a_check proves that every one of the 21 corruption kinds has a non-empty set of answering checks with fixity; C06_structural_without_fixity that every structural kind has one without fixity; C06_only_content_bytes_need_fixity that exactly the three in-file content edits depend on fixity; C06_inventory_bytes / C06_sidecar_digest that any changed inventory byte or sidecar hex digit changes the comparison the validator makes, under digest injectivity. The table is tied to the code on every run: every generated corruption of an object written by the real binary is validated through the library (with and without fixity) and through the CLI, the oracle demands >=1 error and exit status 2, and the observed error codes must intersect the table's.  The validator's own code (serde visitors, listing, digesting) is exercised, not modelled.",
+   note="Trusted: Lean kernel + 3 standard axioms; digest injectivity hypothesis; corrupt.py applies one uncompensated edit; sampled positions in quick, the first 2500 positions of every inventory, sidecar and content file enumerated in thorough. One recorded finding C06-K1 (content-less version directory emptied: W010 only, which is what the OCFL specification asks).",
+   technique="Lean 4 decision-table theorems + differential corruption run (library verdict, CLI exit status) tied to the table", design="§5-C06"),
  "C17": dict(
    text="Proof (Lean 4), partial: for the one loop of the validator whose trip count depended on values in the input (validate_version_nums) C17_version_check_linear proves that iterations + emitted results are at most 102 per version entry for every list of version numbers; C17_version_errors_linear, C17_stops_at_u32_max; C17_gap_witness_before_fix proves (symbolically, for every n) that the unrepaired loop cost n iterations for one key v(n+1). The model is tied by comparing E010 counts on generated version-key sets. Panic-freedom and bounded time/memory of the rest of the validator are decided by a mutation run: structure-aware and raw mutants of inventories, sidecars, declarations and directory structures (symlink loops, FIFOs, files for directories), each validated in-process under catch_unwind with a wall-clock limit and RLIMIT_AS; the repository validator must carry on after a broken object.",
    note="Trusted: Lean kernel + 3 standard axioms; time and memory judged through proxies (wall clock, result count, address-space limit); serde_json's recursion limit and parsing are exercised, not modelled.",
